@@ -197,6 +197,9 @@ class Reference:
     self.scale = 1.0
     self.steps = {}
 
+  def grad(self, params, batch):
+    return ref_grad(params, batch)
+
   def _track(self, tree):
     for v in tree.values():
       self.scale = max(self.scale, float(np.max(np.abs(v))) if np.size(v) else 0.0)
@@ -212,7 +215,7 @@ class Reference:
       s = opt.init(p)
       nsteps = 0
       for batch in ds.shuffle_repeat_batch(hp):
-        g = ref_grad(p, batch)
+        g = self.grad(p, batch)
         s, p = opt.apply(g, s, p)
         self._track(p)
         nsteps += 1
